@@ -153,8 +153,8 @@ func runToSQLCase(c toSQLCase) *core.Failure {
 type readSQLCase struct {
 	Kind      string     `json:"kind"` // readsql
 	Cols      []string   `json:"cols"`
-	ColKinds  []string   `json:"col_kinds"` // int float bool string bytes
-	Rows      [][]string `json:"rows"`      // cell texts, "NULL" = null
+	ColKinds  []string   `json:"col_kinds"`        // int float bool string bytes
+	Rows      [][]string `json:"rows"`             // cell texts, "NULL" = null
 	Coerce    []string   `json:"coerce,omitempty"` // per column: "", int64tobool, stringtofloat
 	Precision int        `json:"precision,omitempty"`
 }
